@@ -154,6 +154,70 @@ for _k, (_prog, _goals) in PERM_PROGS.items():
             prog, perm, {"exact_func_moments": True} if k in ("funcinit", "funcinit2", "trig", "lag") else None))
 
 
+# ---------------------------------------------------------------------------------------------------------------------
+# the CLI's own loop: ONE action object for several benchmark files (`polar.py A.prob B.prob --goals ...`).  The printed
+# output for the LAST file must equal the output printed when that file is analysed alone.
+P_WALK_A = "x = 0\nwhile true:\n    x = x + 1 {1/2} x - 1\nend\n"
+P_WALK_B = "x = 1\nwhile true:\n    x = x + 2 {1/3} x\nend\n"
+P_SENS_B = "x = 0\ny = 0\nc = 0\nwhile true:\n    c = Bernoulli(1/2)\n    x = 3*x + 2*c\n    y = y + p*x\nend\n"
+P_SENS_A = "x = 0\ny = 0\nc = 0\nwhile true:\n    c = Bernoulli(1/2)\n    x = x + c\n    y = y + p*x\nend\n"
+CLI_FILES = {"walkA": P_WALK_A, "walkB": P_WALK_B, "finA": P_FIN_A, "finC": P_FIN_C, "sensA": P_SENS_A, "sensB": P_SENS_B,
+             "inv": P_INV, "trig": P_TRIG}
+CLI_ARGS = {
+    "moments": ["--goals", "E(x)", "E(x**2)", "c2(x)", "k3(x)"],
+    "tails": ["--goals", "P(x >= 3) <= ?", "P(x > 1) >= ?", "--at_n", "3"],
+    "sens": ["--goals", "E(y)", "-sens", "p"],
+    "sens_diff": ["--goals", "E(y)", "-sens_diff", "p"],
+    "cf": ["--cornish_fisher", "x", "--at_n", "4", "--cornish_fisher_order", "3"],
+    "inv": ["--goals", "E(x)", "E(x**2)", "--invariants"],
+}
+CLI_GROUPS = {"moments": ["walkA", "walkB", "finA", "finC"], "tails": ["walkA", "walkB", "finA"], "sens": ["sensA", "sensB"],
+              "sens_diff": ["sensA", "sensB"], "cf": ["walkA", "walkB", "finC"], "inv": ["walkA", "walkB"]}
+
+
+def _cli(argname, files):
+    import os
+    import tempfile
+    import shutil
+    from cli import ArgumentParser
+    from cli.actions import ActionFactory
+
+    tmp = tempfile.mkdtemp(prefix="c20cli_")
+    try:
+        paths = []
+        for f in files:
+            pth = os.path.join(tmp, f + ".prob")
+            with open(pth, "w") as fh:
+                fh.write(CLI_FILES[f])
+            paths.append(pth)
+        old = sys.argv
+        sys.argv = ["polar.py"] + paths + CLI_ARGS[argname]
+        try:
+            args = ArgumentParser().parse_args()
+        finally:
+            sys.argv = old
+        action = ActionFactory.create_action(args)
+        out = None
+        for pth in paths:
+            buf = io.StringIO()
+            with contextlib.redirect_stdout(buf):
+                action(pth)
+            out = buf.getvalue()
+        out = re.sub(r"\x1b\[[0-9;]*m", "", out)
+        lines = [l.rstrip() for l in out.split("\n") if l.strip() and "Elapsed" not in l and tmp not in l]
+        return {"printed": _canon_names("\n".join(lines))}
+    finally:
+        shutil.rmtree(tmp, ignore_errors=True)
+
+
+for _a, _fs in CLI_GROUPS.items():
+    for _f in _fs:
+        OPS["cli_%s_%s" % (_a, _f)] = (lambda a=_a, f=_f: _cli(a, [f]))
+        for _g in _fs:
+            if _g != _f:
+                OPS["cli_%s_%s_then_%s" % (_a, _g, _f)] = (lambda a=_a, f=_f, g=_g: _cli(a, [g, f]))
+
+
 def run(names):
     from mc import polar
 
